@@ -54,6 +54,9 @@ type gramInterp struct {
 	locals []map[types.Object]*ast.FuncLit
 	writes int
 	tokens map[string]bool
+	// cached: methods that memoise a graphics-state parameter in a receiver field (compare, emit, store)
+	cached     map[*types.Func][]string
+	cachedSeen map[string]bool
 }
 
 func gramDead() gramState { return nil }
@@ -513,6 +516,21 @@ func (g *gramInterp) expr(e ast.Expr, in gramState) gramState {
 			if lit, ok := g.spec.opaqueFns[q]; ok {
 				return g.emit(s, lit, pos)
 			}
+			if fields := g.cached[f]; len(fields) > 0 {
+				g.cachedSeen[core.FuncName(g.decls[f])] = true
+				for cfg := range s {
+					d := int(cfg.depth)
+					if cfg.pend == g.spec.saveOp {
+						d++
+					} else if cfg.pend == g.spec.restoreOp {
+						d--
+					}
+					if d > 0 {
+						g.fail("cached state set inside "+g.spec.saveOp+"/"+g.spec.restoreOp+"|"+core.FuncName(g.decls[f]), pos, fmt.Sprintf("%s memoises the graphics-state parameter it emits in %s and is called between %s and %s: %s reverts the parameter in the interpreter but not the memo, so the next call with the same value emits nothing and the drawing that follows uses the value from before the %s", core.FuncName(g.decls[f]), strings.Join(fields, ", "), g.spec.saveOp, g.spec.restoreOp, g.spec.restoreOp, g.spec.saveOp))
+						break
+					}
+				}
+			}
 			if fd := g.decls[f]; fd != nil && g.touchesStream(fd) {
 				name := core.FuncName(fd)
 				if g.onStack(name) {
@@ -688,9 +706,11 @@ func runGrammar(c *core.Ctx, r *core.Report, spec *gramSpec, rule string, entrie
 		}
 	}
 	allTokens := map[string]bool{}
+	cached := cachedSetters(p, decls)
+	cachedSeen := map[string]bool{}
 	for _, e := range entries {
 		fd := core.MustFuncDecl(p, e)
-		g := &gramInterp{c: c, r: r, p: p, spec: spec, rule: rule, entry: spec.pkgRel + "." + e, decls: decls, tokens: map[string]bool{}}
+		g := &gramInterp{c: c, r: r, p: p, spec: spec, rule: rule, entry: spec.pkgRel + "." + e, decls: decls, tokens: map[string]bool{}, cached: cached, cachedSeen: cachedSeen}
 		r.Func(g.entry)
 		before := len(r.Findings)
 		// the previous emission may have left a complete operator pending: start with an opaque
@@ -733,6 +753,74 @@ func runGrammar(c *core.Ctx, r *core.Report, spec *gramSpec, rule string, entrie
 		}
 	}
 	sort.Strings(ops)
+	r.Count(rule+":memoising-setters", len(cached))
+	r.Count(rule+":memoising-setters-called", len(cachedSeen))
+	r.Floor(rule+":memoising-setters-called", 5)
 	r.Count(rule+":distinct-operators", len(ops))
 	r.Note("%s operators formed: %s", rule, strings.Join(ops, " "))
+}
+
+// cachedSetters finds the methods that memoise an emitted graphics-state parameter: the method
+// compares a field of its receiver in a condition and assigns that same field.
+func cachedSetters(p *packages.Package, decls map[*types.Func]*ast.FuncDecl) map[*types.Func][]string {
+	info := p.TypesInfo
+	out := map[*types.Func][]string{}
+	for f, fd := range decls {
+		if fd.Recv == nil || len(fd.Recv.List) == 0 || len(fd.Recv.List[0].Names) == 0 || fd.Body == nil {
+			continue
+		}
+		recv := info.Defs[fd.Recv.List[0].Names[0]]
+		if recv == nil {
+			continue
+		}
+		fieldOf := func(e ast.Expr) string {
+			sel, ok := core.Unparen(e).(*ast.SelectorExpr)
+			if !ok {
+				return ""
+			}
+			id, ok := core.Unparen(sel.X).(*ast.Ident)
+			if !ok || core.ObjOf(info, id) != recv {
+				return ""
+			}
+			if s := info.Selections[sel]; s == nil || s.Kind() != types.FieldVal {
+				return ""
+			}
+			return sel.Sel.Name
+		}
+		compared := map[string]bool{}
+		assigned := map[string]bool{}
+		ast.Inspect(fd.Body, func(n ast.Node) bool {
+			switch x := n.(type) {
+			case *ast.IfStmt:
+				ast.Inspect(x.Cond, func(m ast.Node) bool {
+					if e, ok := m.(ast.Expr); ok {
+						if fn := fieldOf(e); fn != "" {
+							compared[fn] = true
+						}
+					}
+					return true
+				})
+			case *ast.AssignStmt:
+				if x.Tok == token.ASSIGN {
+					for _, l := range x.Lhs {
+						if fn := fieldOf(l); fn != "" {
+							assigned[fn] = true
+						}
+					}
+				}
+			}
+			return true
+		})
+		var fields []string
+		for fn := range assigned {
+			if compared[fn] {
+				fields = append(fields, fn)
+			}
+		}
+		sort.Strings(fields)
+		if len(fields) > 0 {
+			out[f] = fields
+		}
+	}
+	return out
 }
